@@ -1187,11 +1187,14 @@ class AsyncBackgroundBatcher(Generic[A_contra, R_co]):
                     len(args), self.func,
                 )
                 async for key, result in self.func(args):
-                    fut = futs.pop(key)
+                    fut = futs[key]
                     if isinstance(result, Exception):
                         fut.set_exception(result)
                     else:
                         fut.set_result(result)
+                    # Only forget the future once it has an outcome so
+                    # that a failure to set it is still reported to it
+                    del futs[key]
         except Exception as e:
             logger.debug("Exception while processing batch", exc_info=True)
             for fut in futs.values():
